@@ -12,6 +12,17 @@ CLAIMED = {
  "C02": ("proof", "6/C02", "Membership operations and the constructors taking universes=/vertices= are verified against the symmetric reference "
          "model (append at the end, erase-first on both sides, ValueError with unchanged state); invariant I2 (symmetric, duplicate-free) "
          "is proved preserved by each contract; nested/self membership is covered because u and o are unconstrained symbolic references."),
+ "C03": ("proof", "6/C03", "The reference model of the property statement IS the set of top-level contracts: edge construction, end assignment, "
+         "unlink(a,b,destroy), link_from_to(dontdup) and the membership operations are each verified (all paths, normal and exceptional exits) "
+         "against postconditions that give the whole post-state as explicit updates of the pre-state, so the frame ('every other vertex's ordered "
+         "links and every other link untouched') is a proved equality at an arbitrary address, not an omission. Unbounded: symbolic aliased arguments, loop invariants."),
+ "C04": ("proof", "6/C04", "neighbors() is verified against NB = fold of the decision table `contrib` (written from the statement) over the ordered link "
+         "list: loop invariant elems(nbs) = NB(prefix); all 3x3 parameter combinations, filters, link classes (open class hierarchy) and positions of v "
+         "are symbolic; exception outcomes have unchanged state. The FORWARD/BACKWARD count symmetry is proved pointwise per link (SMT) and lifted by a "
+         "Lean-checked counting lemma."),
+ "C09": ("proof", "6/C09", "find_links is verified against the membership predicate `qual` of the statement (result set = {l in links(a) : joins a,b and qualifies}); "
+         "the agreement with neighbors() is proved pointwise per link (qualifies <=> contributes [b]) and lifted to sizes by the Lean counting lemma; "
+         "'empty after unlink, other pairs untouched' is a lemma over unlink's contract."),
  "C19": ("proof", "6/C19", "Both setters are verified (mutually, each against the other's contract) against a total reference model of "
          "'bind'; I19 is proved preserved by the setters and Universe.__init__; 'every assignment succeeds' = the contracts have no "
          "exceptional outcome and every implicit AttributeError/IndexError path is proved infeasible; rule getters return the stored "
